@@ -671,3 +671,32 @@ def r1b(cx):
         cx.violation(b.root, 'entry-dropped-by-unreviewed-test', 'a directory entry can be skipped without being ".", ".." or a pattern mismatch: '
                      'an additional filter in the scan loop makes pathname expansion omit existing matching names (e.g. dot files '
                      'when the leading period of the pattern is quoted)', loc=b.loc(b.term(p[min(len(p) - 1, 1)])), path=Q.render_path(b, p))
+
+
+@RS.rule('C05.R2b', 'K-PASS', 'when components remain, push_component always descends: no test (file type, symlink, name) may prune the search below a pushed component')
+def r2b(cx):
+    import mirq as Q
+    F = cx.F
+    body = F.body(PUSH_COMPONENT)
+    cx.fn(body.fn)
+    du = Q.DefUse(body)
+    rec = Q.find_calls(body, [SEARCH_DIR])
+    cx.require(rec, 'push_component does not call search_dir (C05.R2 reports that)')
+    starts = []
+    for u in body.live_blocks():
+        ec = Q.edge_condition(F, body, du, u)
+        if not ec:
+            continue
+        org, labels = ec
+        if org['k'] == 'discr' and 'Option' in org['ty'] and org['pl']['l'] <= body.argc:
+            for tgt, labs in labels.items():
+                if ('variant', 'Some') in labs and ('variant', 'None') not in labs:
+                    starts.append(tgt)
+    cx.require(starts, 'the test of `suffix` (Some = components remain) was not found in push_component')
+    cx.site('%s: from the `suffix is Some` edge (bb%s) every path to the return passes search_dir' % (body.fn, sorted(set(starts))))
+    p = Q.must_pass(body, starts, {b for b, _ in rec})
+    if p is not None:
+        cx.violation(PUSH_COMPONENT, 'descent-pruned', 'push_component can return without searching the remaining components although '
+                     'components remain: a shortcut that prunes the descent (e.g. "the entry is not a directory" decided without '
+                     'following symbolic links) makes pathname expansion omit existing matching paths such as link/*',
+                     loc=body.loc(body.term(p[min(len(p) - 1, 1)])), path=Q.render_path(body, p))
